@@ -59,6 +59,11 @@ def crs_report(crs_b, area):
     return {"crs_eq": bool(a == b), "crs_exact": bool(a.is_exact_same(b)), "crs_op": crs_same_grid(a, b, area)}
 
 
+def future(flag):
+    """features.future_geometries switches the returned class (future AreaDefinition instead of the legacy one)."""
+    return pyresample.config.set({"features.future_geometries": bool(flag)})
+
+
 def area_report(b, a):
     x, y = b.get_proj_vectors()
     r = {"extent": fl(b.area_extent), "shape": [int(b.shape[0]), int(b.shape[1])], "xvec": fl(x), "yvec": fl(y),
@@ -126,20 +131,27 @@ def run_cf(cases):
             r["stored_y"] = fl(ds[ydim].values)
             del calls[:]
             how = c["lookup"]
-            try:
+
+            def load():
                 if how == "var":
-                    b, info = load_cf_area(ds, variable="v")
-                elif how == "none":
-                    b, info = load_cf_area(ds)
-                elif how == "gm":
-                    b, info = load_cf_area(ds, variable="crs", y=ydim, x=xdim)
-                elif how == "xy":
-                    b, info = load_cf_area(ds, variable="v", y=ydim, x=xdim)
-                else:
-                    b, info = AreaDefinition.from_cf(ds, variable="v"), None
-                r["error"] = None
-                r.update(area_report(b, a))
-                r["tab"] = [list(t) for t in calls]
+                    return load_cf_area(ds, variable="v")
+                if how == "none":
+                    return load_cf_area(ds)
+                if how == "gm":
+                    return load_cf_area(ds, variable="crs", y=ydim, x=xdim)
+                if how == "xy":
+                    return load_cf_area(ds, variable="v", y=ydim, x=xdim)
+                return AreaDefinition.from_cf(ds, variable="v"), None
+            try:
+                with future(c.get("future")):
+                    b, info = load()
+                    r["error"] = None
+                    r.update(area_report(b, a))
+                    r["tab"] = [list(t) for t in calls]
+                    # history: a second load of the same, untouched dataset gives the same area
+                    b2, _ = load()
+                    r["repeat_same"] = bool(tuple(b2.area_extent) == tuple(b.area_extent) and b2.shape == b.shape
+                                            and fl(ds[xdim].values) == r["stored_x"] and fl(ds[ydim].values) == r["stored_y"])
                 if info is not None:
                     r["info"] = {"x": info["x"]["varname"], "y": info["y"]["varname"],
                                  "gm": info["grid_mapping_variable"], "type": info["type_of_grid_mapping"]}
@@ -196,12 +208,14 @@ def run_raster(cases):
             with mf.open() as src:
                 r["transform"] = fl(tuple(src.transform)[:6])
                 r["bounds"] = fl(src.bounds)
-                if c.get("by_name"):
-                    b = get_area_def_from_raster(mf.name)
-                else:
-                    b = get_area_def_from_raster(src)
+                with future(c.get("future")):
+                    if c.get("by_name"):
+                        b = get_area_def_from_raster(mf.name)
+                    else:
+                        b = get_area_def_from_raster(src)
             r["rio"] = area_report(b, a)
-            g = get_area_def_from_raster(FakeGdal(r["transform"], a.width, a.height, a.crs.to_wkt()), projection=a.crs)
+            with future(c.get("future")):
+                g = get_area_def_from_raster(FakeGdal(r["transform"], a.width, a.height, a.crs.to_wkt()), projection=a.crs)
             r["gdal"] = area_report(g, a)
             mf.close()
         except Exception as e:
@@ -254,6 +268,8 @@ def run_geobox(cases):
             r["cwh"] = fl(af * (a.width, a.height))
             r["centre00"] = fl(af * (0.5, 0.5))
             r["area_c00"] = [float(a.get_proj_vectors()[0][0]), float(a.get_proj_vectors()[1][0])]
+            gb2 = a.to_odc_geobox()
+            r["repeat_same"] = bool(tuple(gb2.affine)[:6] == tuple(af)[:6] and tuple(gb2.shape) == tuple(gb.shape))
             r.update(crs_report(pyproj.CRS.from_wkt(gb.crs.to_wkt()), a))
         except Exception as e:
             r["error"] = type(e).__name__ + ": " + str(e)[:300]
@@ -269,6 +285,7 @@ def run_cartopy(cases):
             a = mk_area(c["area"])
             p = a.to_cartopy_crs()
             r["bounds"] = fl(p.bounds)
+            r["repeat_same"] = bool(fl(a.to_cartopy_crs().bounds) == r["bounds"] and fl(a.area_extent) == fl(c["area"]["extent"]))
             r["crs_eq"] = bool(pyproj.CRS.from_wkt(p.to_wkt()) == a.crs)
             r["crs_op"] = crs_same_grid(a.crs, pyproj.CRS.from_wkt(p.to_wkt()), a)
         except Exception as e:
